@@ -440,6 +440,22 @@ static void case_walk(vrng *r, uint64_t caseno, char flavor)
     MAYBE_CB(c, r);
     if (vrn(r, 4) == 0 && !prior_history(&c, r)) goto out;
     if (!apply_op(&c, OP_ENTER, NULL, 0, 0)) goto out;
+    if (c.max_depth > 40 && vrn(r, 2)) {
+        /* dive: follow the first container downwards (by next or by lookup) so that the walk proper happens at depth 100..255 */
+        for (int dive = 0; dive < 600 && !c.m.done && !c.dead; dive++) {
+            vframe *f = &c.m.f[c.m.nf - 1];
+            uint32_t j = f->next;
+            while (j < f->c->nkids && f->c->kids[j]->kind != K_OBJ && f->c->kids[j]->kind != K_ARR) j++;
+            if (j >= f->c->nkids) break;
+            if (f->c->kind == K_OBJ && vrn(r, 2)) { if (!apply_op(&c, vrn(r, 2) ? OP_FIELD : OP_FIELD_E, f->c->kids[j]->name, f->c->kids[j]->name_len, (int)vrn(r, 1000))) goto out; }
+            else { bool bad = false; while (c.m.f[c.m.nf - 1].next <= j && !bad) bad = !apply_op(&c, OP_NEXT, NULL, 0, 0); if (bad) goto out; }
+            if (!vc_current(&c.m)) break;
+            if (!apply_op(&c, OP_ENTER, NULL, 0, 0)) goto out;
+            steps++;
+            if (c.trace.n > 3000) vb_reset(&c.trace);
+        }
+        vw_max("max_dive_depth", (uint64_t)c.m.nf);
+    }
     while (!c.m.done && steps < limit && !c.dead) {
         steps++;
         vnode *cur = vc_current(&c.m);
@@ -630,7 +646,7 @@ static void explore_tree(const char *code, uint64_t caseno, char flavor, vrng *r
 }
 
 /* --------------------------------------------------------------------- C10 -- */
-typedef struct { binson_parser *p; binson_writer *w; bool ok; int depth; } tctx;
+typedef struct { binson_parser *p; binson_writer *w; bool ok; int depth; unsigned empties; } tctx;
 static void transcribe(tctx *t, bool in_obj)
 {
     if (++t->depth > 6000) { fprintf(stderr, "HARNESS: transcriber recursion guard\n"); exit(2); }
@@ -638,7 +654,7 @@ static void transcribe(tctx *t, bool in_obj)
         if (in_obj) {
             bbuf *nm = binson_parser_get_name(t->p);
             if (!nm) { t->ok = false; break; }
-            binson_write_name_with_len(t->w, (const char *)nm->bptr, nm->bsize);
+            binson_write_name_with_len(t->w, (nm->bsize == 0 && (t->empties++ & 1)) ? NULL : (const char *)nm->bptr, nm->bsize);
         }
         switch (binson_parser_get_type(t->p)) {
         case BINSON_TYPE_OBJECT:
@@ -658,8 +674,9 @@ static void transcribe(tctx *t, bool in_obj)
         case BINSON_TYPE_BOOLEAN: binson_write_boolean(t->w, binson_parser_get_boolean(t->p)); break;
         case BINSON_TYPE_INTEGER: binson_write_integer(t->w, binson_parser_get_integer(t->p)); break;
         case BINSON_TYPE_DOUBLE: binson_write_double(t->w, binson_parser_get_double(t->p)); break;
-        case BINSON_TYPE_STRING: { bbuf *s = binson_parser_get_string_bbuf(t->p); if (!s) { t->ok = false; break; } binson_write_string_with_len(t->w, (const char *)s->bptr, s->bsize); break; }
-        case BINSON_TYPE_BYTES: { bbuf *s = binson_parser_get_bytes_bbuf(t->p); if (!s) { t->ok = false; break; } binson_write_bytes(t->w, s->bptr, s->bsize); break; }
+        /* an empty value is handed over as (NULL, 0) every other time: a decoder that copies values has no pointer for it */
+        case BINSON_TYPE_STRING: { bbuf *s = binson_parser_get_string_bbuf(t->p); if (!s) { t->ok = false; break; } binson_write_string_with_len(t->w, (s->bsize == 0 && (t->empties++ & 1)) ? NULL : (const char *)s->bptr, s->bsize); break; }
+        case BINSON_TYPE_BYTES: { bbuf *s = binson_parser_get_bytes_bbuf(t->p); if (!s) { t->ok = false; break; } binson_write_bytes(t->w, (s->bsize == 0 && (t->empties++ & 1)) ? NULL : s->bptr, s->bsize); break; }
         default: t->ok = false; break;
         }
     }
@@ -679,7 +696,7 @@ static void case_c10(vrng *r, uint64_t caseno)
     memset(dst, 0xEE, c.n);
     binson_writer w;
     binson_writer_init(&w, dst, c.n);
-    tctx t = { c.p, &w, true, 0 };
+    tctx t = { c.p, &w, true, 0, (unsigned)vrn(r, 2) };
     t.ok = binson_parser_init_object(c.p, c.buf, c.n);
     if (t.ok) MAYBE_CB(c, r);
     if (t.ok && vrn(r, 3) == 0) t.ok = prior_history(&c, r);       /* abandoned partial walk + reset/verify first */
